@@ -20,6 +20,11 @@ Theorem C06_codec : forall T K k j, 0 <= j < T -> 0 <= k < K -> T <= 256 ->
 Proof. intros T K k j Hj Hk HT. split; [apply codec_rot; exact Hj|split; [apply codec_label_loader|apply codec_label_group]; assumption]. Qed.
 Print Assumptions C06_codec.
 
+Theorem C06_candidate_mask : forall T K k j, 0 <= j < T ->
+  mask_rot_index (flat T k j) T K = k /\ multiple_pairs_template_with_mask = true /\ landscape_pairs_template_with_mask = true.
+Proof. intros T K k j H. split; [apply codec_mask; exact H | split; reflexivity]. Qed.
+Print Assumptions C06_candidate_mask.
+
 Theorem C06_fit_candidates : forall T k j, 0 <= j < T ->
   fit_task_quat_index (flat T k j) T = k /\ fit_result_quat_index (flat T k j) T = k /\ fit_result_label (flat T k j) T = j.
 Proof. exact codec_fit. Qed.
